@@ -17,7 +17,8 @@ Acquired(p) == p.acquired_ts >= 0
 DefEnd(p) == IF p.releasing_ts >= 0 THEN p.releasing_ts ELSE IF p.kill_ts >= 0 THEN p.kill_ts ELSE p.exit_ts
 Overlap(a1, a2, b1, b2) == a1 < b2 /\ b1 < a2
 \* possible holding interval: the whole life of a process that acquired
-LockError(p) == p.rc # 0 /\ p.err = "server"
+\* (when nobody was reading the invocation's standard error, the message is lost and the exit status is all there is)
+LockError(p) == p.rc # 0 /\ (p.err = "server" \/ ("errlost" \in DOMAIN p /\ p.errlost))
 
 ScenarioWhys(r) ==
   LET P == RangeOf(r.procs) IN
